@@ -17,7 +17,7 @@ Anything outside the supported Python subset raises AnalysisError (exit 2).
 import ast
 import functools
 import math
-from collections import deque
+from collections import deque, ChainMap
 
 from .astutil import norm
 from .errors import AnalysisError
@@ -221,7 +221,7 @@ class Frame:
 _EXC_NAMES = {'Exception', 'BaseException', 'AttributeError', 'TypeError', 'AssertionError', 'KeyError', 'IndexError',
               'ValueError', 'NameError', 'ZeroDivisionError', 'NotImplementedError', 'RuntimeError', 'OverflowError'}
 _NATIVE_EXC = (KeyError, IndexError, ValueError, TypeError, ZeroDivisionError, AttributeError, OverflowError)
-_NATIVE_TYPES = (int, float, str, list, tuple, dict, set, frozenset, deque, range, slice, type(None), bool)
+_NATIVE_TYPES = (int, float, str, list, tuple, dict, set, frozenset, deque, range, slice, type(None), bool, ChainMap, ast.AST)
 
 
 class Interp:
@@ -235,8 +235,8 @@ class Interp:
         s.copy_ns = _CopyNS()
         s.copy_ns.copy = s._copy
         s.copy_ns.deepcopy = s._deepcopy
-        s.native_modules = {'copy': s.copy_ns, 'math': math}
-        s.native_from = {('collections', 'deque'): deque, ('math', 'ceil'): math.ceil, ('math', 'log2'): math.log2,
+        s.native_modules = {'copy': s.copy_ns, 'math': math, 'ast': ast, 'collections': __import__('collections')}
+        s.native_from = {('collections', 'deque'): deque, ('collections', 'ChainMap'): ChainMap, ('math', 'ceil'): math.ceil, ('math', 'log2'): math.log2,
                          ('math', 'log'): math.log, ('math', 'floor'): math.floor,
                          ('copy', 'copy'): s._copy, ('copy', 'deepcopy'): s._deepcopy,
                          ('functools', 'reduce'): functools.reduce}
@@ -355,7 +355,7 @@ class Interp:
             raise Raised('AttributeError')
         if isinstance(obj, int) and name == 'bit_length':
             return SymInt.of(obj).bit_length
-        if isinstance(obj, (NativeModel, _CopyNS)) or obj is math:
+        if isinstance(obj, (NativeModel, _CopyNS)) or obj is math or obj is ast or getattr(obj, '__name__', None) == 'collections':
             if hasattr(obj, name):
                 return getattr(obj, name)
             raise Raised('AttributeError')
